@@ -51,6 +51,11 @@ def run_impl(kind, inp):
   if kind == "pareto":
     f, d = pf(vals, numpy.arange(len(vals)))
     return dict(front=[int(x) for x in f], dominated=[int(x) for x in d])
+  if kind == "sorted_front":
+    v0 = vals.copy()
+    out = mm._find_sorted_pareto_frontier_values_minimization(vals)
+    assert numpy.array_equal(v0, vals), "input matrix modified"
+    return dict(rows=numpy.asarray(out, dtype=float).reshape(-1, vals.shape[1]).tolist())
   if kind == "eps":
     th = tuple(inp["thresholds"])
     out = mm.find_epsilon_constraint_value(inp["eps"], inp["cm"], vals, th)
@@ -137,7 +142,7 @@ def gen_wrapper(rng, kind):
 
 
 def gen_case(rng):
-  kind = rng.choice(["pareto", "pareto", "eps", "eps", "epsfail", "force", "label", "wrap_gp", "wrap_spe", "wrap_spe"])
+  kind = rng.choice(["pareto", "pareto", "sorted_front", "eps", "eps", "epsfail", "force", "label", "wrap_gp", "wrap_spe", "wrap_spe"])
   if kind in ("wrap_gp", "wrap_spe"):
     return kind, gen_wrapper(rng, kind)
   if kind == "pareto":
@@ -145,6 +150,8 @@ def gen_case(rng):
     return kind, dict(vals=gen_values(rng, n, m, rng.choice([1, 2, 4, 9])))
   n = rng.randint(1, 10)
   vals = gen_values(rng, n, 2, rng.choice([2, 5, 12]))
+  if kind == "sorted_front":
+    return kind, dict(vals=vals)
   eps = rng.randint(1, 15) / 16.0
   cm = rng.randint(0, 1)
   if kind == "eps":
@@ -168,6 +175,8 @@ def coq_case(kind, inp, out):
   bl = lambda l: C.listlit(l, C.blit)
   if kind == "pareto":
     return f"CPareto {v} {C.listlit(out['front'], C.nlit)} {C.listlit(out['dominated'], C.nlit)}"
+  if kind == "sorted_front":
+    return f"CSortedFront {v} {rows(out['rows'])}"
   if kind == "eps":
     t0, t1 = (C.optlit(t, C.qlit) for t in inp["thresholds"])
     return f"CEps {C.qlit(inp['eps'])} {inp['cm']} {v} {t0} {t1} {C.qlit(out['value'])}"
@@ -204,6 +213,8 @@ def coq_case(kind, inp, out):
 def nontrivial(kind, inp, out):
   if kind == "pareto":
     return bool(out["front"]) and bool(out["dominated"])
+  if kind == "sorted_front":
+    return 2 <= len(out["rows"]) < len(inp["vals"])
   if kind == "eps":
     return len(inp["vals"]) >= 2
   if kind in ("wrap_gp", "wrap_spe"):
@@ -252,7 +263,7 @@ def correspondence(ctx):
   return dict(evaluations=len(cases), distinct_nontrivial=nontriv,
               rule="value matrices n<=10 rows, m<=3 metrics (2 for epsilon routines), small integers with forced ties and duplicates, "
                    "dyadic epsilon k/16, thresholds inside/outside the data range; non-trivial = both a dominated and a non-dominated row "
-                   "(pareto), >=2 rows (epsilon), mixed failure mask (repair), some reported failure (wrappers); the two wrappers "
+                   "(pareto), a frontier of >= 2 rows and a dominated row (sorted frontier), >=2 rows (epsilon), mixed failure mask (repair), some reported failure (wrappers); the two wrappers "
                    "filter_multimetric_points_sampled / _spe with the epsilon-constraint method on histories with 0..4 good observations plus "
                    "1..7 reported failures, n < 5, every observation failed (ValueError = the model's None), general masks, lie values distinct "
                    "from the data or carried by the failures as the views pass them; distinct by hash of the canonical input",
@@ -389,6 +400,14 @@ def oracle(kind, inp):
     dm = [j for j in range(n) if j not in nd]
     if out["front"] != nd or out["dominated"] != dm:
       return fail("frontier is not the set of non-dominated rows", dict(front=nd, dominated=dm))
+  elif kind == "sorted_front":
+    # exactly the rows no row dominates under minimisation, every copy kept, non-decreasing in the first metric
+    nd = [tuple(v[j]) for j in range(n) if not any((v[k] <= v[j]).all() and (v[k] < v[j]).any() for k in range(n))]
+    got = [tuple(r) for r in out["rows"]]
+    if sorted(got) != sorted(nd):
+      return fail("sorted frontier is not exactly the non-dominated rows with every tied copy kept", sorted(nd))
+    if any(got[i][0] > got[i + 1][0] for i in range(len(got) - 1)):
+      return fail("sorted frontier is not ordered along the first metric", sorted(nd))
   elif kind == "eps":
     cm, eps = inp["cm"], inp["eps"]
     col = v[:, cm]
@@ -458,7 +477,7 @@ def search(ctx, hints, broken):
           inp["vars"] = [[abs(rng.gauss(0, 1)) for _ in range(2)] for _ in range(nrow)]
     elif rng.random() < 0.5:  # real-valued data of many magnitudes, larger sizes
       nrow = rng.randint(1, 40)
-      m = rng.randint(1, 4) if kind == "pareto" else 2
+      m = rng.randint(1, 4) if kind == "pareto" else 2   # the sorted frontier and the epsilon routines are two-metric
       scale = 10.0 ** rng.randint(-6, 6)
       inp["vals"] = [[round(rng.gauss(0, 1), rng.choice([0, 1, 6])) * scale for _ in range(m)] for _ in range(nrow)]
       if "fails" in inp:
